@@ -44,6 +44,7 @@ pub fn property() -> Property {
                 check_model::<SMVReg>(p, &ctx, st, &nontrivial, "MVReg read differs from the causally-maximal-writes specification")
             })
             .decoder({ let pc = pc.clone(); move |d: &[u8]| decode_plan(&pc, d) })
+            .encoder({ let pc = pc.clone(); move |t: &Plan| encode_plan(&pc, t) })
             .floor("nontrivial", 0.03)
             .boxed(),
         );
